@@ -76,6 +76,8 @@ def num_events(col, values, maxlen):
 
 
 A_NUMERIC = [("A", "num", [7.0]), ("A", "num", [7.0, 8.5]), ("A", "int", [1, 2, 3])]
+# the follow-up column holds nothing but missing values, as a NUMERIC column (float64 all-NaN; a zero-row float64 column)
+A_MISSING = [("A", "nan", [None]), ("A", "nan", [None, None]), ("A", "nan", [])]
 a_TEXT = [("a", "text", ["u"]), ("a", "text", ["u", "v"]), ("a", "text", ["x", "x"])]
 a_VALUES = (0.0, 1.5, -2.0)
 
@@ -148,6 +150,8 @@ def expectation(formula, tr, efr, ev, rows, levels=None):
     if col == "A":
         if kind != "text" and formula not in C_FORMULAS:
             return ("ERR",), True
+        if kind == "nan":
+            return None, False  # C(A) of an all-missing column: the rows are dropped (C06's business): unspecified
         unseen = any(v not in trained for v in vec)
         absent = any(l not in vec for l in trained)
         names, mat = R.evaluate(ref_columns(formula, tr, efr, levels), rows)
@@ -246,11 +250,21 @@ def spec_digest(spec):
     return (names, tuple(enc), str(spec.output), bool(spec.ensure_full_rank))
 
 
-def fit(formula, tr, efr, out):
+FIT_VARIANTS = [("cluster_by='numerical_factors'", {"cluster_by": "numerical_factors"}, "direct"),
+                ("cluster_by='numerical_factors'", {"cluster_by": "numerical_factors"}, "pickled"),
+                ("default", {}, "pickled")]
+
+
+def fit(formula, tr, efr, out, fit_kw=None, transport="direct"):
     from formulaic import model_matrix
 
-    mm = model_matrix(formula, training_frame(tr), ensure_full_rank=efr, output=out)
-    return mm.model_spec
+    mm = model_matrix(formula, training_frame(tr), ensure_full_rank=efr, output=out, **(fit_kw or {}))
+    spec = mm.model_spec
+    if transport == "pickled":  # how a spec reaches a scoring service
+        import pickle
+
+        spec = pickle.loads(pickle.dumps(spec))
+    return spec
 
 
 def ev_str(ev):
@@ -265,9 +279,14 @@ def repro(formula, tr, efr, out, evs):
         _, rows = followup(tr, ev)
         A = [r["A"] for r in rows]
         a = [r["a"] for r in rows]
-        s += ("; ms.get_model_matrix(pandas.DataFrame({'A': %s, 'B': O(%r), 'a': %s}))"
-              % (("O(%r)" % A) if (isinstance(A[0], str) or (ev[0] == "A" and ev[1] == "text") or ev[0] == "a") else repr(A), [r["B"] for r in rows],
-                 ("O(%r)" % a) if isinstance(a[0], str) else repr(a)))
+        if ev[0] == "A" and ev[1] == "nan":
+            A_src = "pandas.Series(%r, dtype='float64')" % (A,)
+        elif ev[0] == "a" or ev[1] == "text":
+            A_src = "O(%r)" % (A,)
+        else:
+            A_src = repr(A)
+        a_src = ("O(%r)" % (a,)) if (a and isinstance(a[0], str)) else repr(a)
+        s += "; ms.get_model_matrix(pandas.DataFrame({'A': %s, 'B': O(%r), 'a': %s}))" % (A_src, [r["B"] for r in rows], a_src)
     return s
 
 
@@ -285,10 +304,12 @@ def choose_event(c, ctx, formula, which):
     return c.pick(evs)
 
 
-def fit_checked(col, formula, tr, efr, out):
-    spec = fit(formula, tr, efr, out)
+def fit_checked(col, formula, tr, efr, out, variant=None):
+    spec = fit(formula, tr, efr, out, *(variant[1:] if variant else ()))
     train_names = [str(x) for x in spec.column_names]
     ref_names, _ = R.evaluate(ref_columns(formula, tr, efr), [])
+    if variant and variant[1] and sorted(train_names) == sorted(ref_names):
+        return spec, train_names  # clustering terms only reorders the columns; the caller aligns the reference
     if train_names != ref_names:
         col.count("fit-structure-differs-from-reference (skipped)")
         raise Skip()
@@ -302,10 +323,17 @@ def drv_followup(c, ctx, col):
     # the used-materializer route does not depend on the output type: thorough explores it for pandas output only
     route = c.pick(ctx.get("routes", ROUTES[:1]) if (out == "pandas" or not ctx.get("second_route_pandas_only"))
                    else ROUTES[:1])
-    spec, train_names = fit_checked(col, formula, tr, efr, out)
+    variant = c.pick(ctx["fit_variants"]) if ctx.get("fit_variants") else None
+    spec, train_names = fit_checked(col, formula, tr, efr, out, variant)
     col.state(spec_digest(spec))
     frame, rows = followup(tr, ev)
     want, nontrivial = expectation(formula, tr, efr, ev, rows)
+    if want is None:
+        col.count("unspecified:C() of an all-missing column")
+        raise Skip()
+    if want[0] == "OK" and want[1] != train_names and sorted(want[1]) == sorted(train_names):
+        order = [want[1].index(nm) for nm in train_names]  # reference columns in the (clustered) order of the fit
+        want = ("OK", train_names, [[r[j] for j in order] for r in want[2]], want[3])
     outcome = apply_spec(spec, frame, route=route)
     col.state(spec_digest(spec))
     if nontrivial:
@@ -313,8 +341,9 @@ def drv_followup(c, ctx, col):
     col.sample({"formula": formula, "ensure_full_rank": efr, "output": out, "train_A": tr, "followup": ev_str(ev),
                 "expected": want[0] if want[0] == "ERR" else {"columns": want[1], "rows": want[2], "warning": want[3]}})
     sig = judge(outcome, want, train_names)
-    key = "followup :: %s efr=%s out=%s train=%r apply %s%s" % (
-        formula, efr, out, tr, ev_str(ev), "" if route == ROUTES[0] else " (via a materializer object used before)")
+    key = "followup :: %s efr=%s out=%s train=%r apply %s%s%s" % (
+        formula, efr, out, tr, ev_str(ev), "" if route == ROUTES[0] else " (via a materializer object used before)",
+        "" if not variant else " [fit: %s, spec %s]" % (variant[0], variant[2]))
     if sig:
         col.count("where[%s | %s efr=%s %s]" % (sig, formula, efr, "A<-" + ev[1] if ev[0] == "A" else "a<-" + ev[1]))
         col.violation(key, {"formula": formula, "ensure_full_rank": efr, "output": out, "train_A": tr,
@@ -463,6 +492,9 @@ def drv_structured(c, ctx, col):
     col.state(spec_digest(spec))
     frame, rows = followup(tr, ev)
     want, nontrivial = expectation(leaf_formula, tr, efr, ev, rows)
+    if want is None:
+        col.count("unspecified:C() of an all-missing column")
+        raise Skip()
     outcome = apply_spec(spec, frame, route=route)
     if nontrivial:
         col.interesting()
@@ -611,6 +643,7 @@ def describe(ctx):
 def subchecks(tier, seed):
     selftest()
     f, h = contexts(tier, seed)
+    f["ev1"] = {"A": f["ev1"]["A"] + A_MISSING, "a": f["ev1"]["a"]}
     f["formulas"] = FORMULAS + list(PASS_THROUGH)
     f["routes"] = ROUTES
     f["second_route_pandas_only"] = True
@@ -630,6 +663,14 @@ def subchecks(tier, seed):
                     bounds={"formulas": lt["formulas"], "outputs": lt["outputs"], "training_A_columns (object dtype)": lt["trainings"],
                             "followup_A": "every vector of length <= 2 over {1, 2, '1', '2', 4} (object dtype)",
                             "ensure_full_rank": [True, False]}))
+    fv = {"outputs": ["pandas"], "trainings": [["y", "x"], ["z", "y", "x"]] if tier == "quick" else LEVEL_SETS,
+          "formulas": FORMULAS, "fit_variants": FIT_VARIANTS,
+          "ev1": {"A": text_events("A", "xyzw", 1 if tier == "quick" else 2) + [("A", "text", ["w", "x"])] + A_NUMERIC[:2]
+                       + A_MISSING[:1], "a": num_events("a", a_VALUES, 1)[:2] + a_TEXT[:1]}}
+    subs.append(Sub("fit-variants", drv_followup, fv, shard_depth=4,
+                    bounds={"formulas": FORMULAS, "fit_variants": [(v[0], v[2]) for v in FIT_VARIANTS],
+                            "training_A_columns": fv["trainings"], "followups": {k: len(v) for k, v in fv["ev1"].items()},
+                            "ensure_full_rank": [True, False], "outputs": ["pandas"]}))
     subs.append(Sub("structured", drv_structured, st, shard_depth=5,
                     bounds={"formulas": sorted(STRUCTURED),
                             "leaves / derived specs": {k: [l[0] for l in v] for k, v in STRUCTURED.items()},
